@@ -4,5 +4,6 @@ ShOk1 == {[n |-> 1, kind |-> "ok"]}
 ShOk2 == {[n |-> 2, kind |-> "ok"]}
 ShOk12 == {[n |-> 1, kind |-> "ok"], [n |-> 2, kind |-> "ok"]}
 ShMax == {[n |-> 1, kind |-> "ok"], [n |-> 2, kind |-> "ok"], [n |-> 1, kind |-> "maxlod"]}
+ShConcat == {[n |-> 1, kind |-> "ok"], [n |-> 1, kind |-> "concat"]}
 ShAll == {[n |-> 1, kind |-> "ok"], [n |-> 2, kind |-> "ok"], [n |-> 1, kind |-> "neglod"], [n |-> 1, kind |-> "concat"]}
 ====
